@@ -1,5 +1,6 @@
 import Casket.Proofs.Parser
 import Casket.Proofs.ParserTerm
+import Casket.Proofs.ParserRT
 import Casket.Proofs.Lexer
 /-
 C10 — Casketfile parsing is total, terminating and structure-preserving.
@@ -9,7 +10,7 @@ The model (`Casket.Lexer.lex`, `Casket.Parser.parse`) is tied to casketfile/lexe
 casketfile/parse.go by the streams c10.lex / c10.parse / c10.rt.
 -/
 namespace Casket.Props.C10
-open Casket.Lexer Casket.Dispenser Casket.Parser Casket.ParserSpec Casket.LexerSpec
+open Casket.Lexer Casket.Dispenser Casket.Parser Casket.ParserSpec Casket.LexerSpec Casket.ParserRT
 
 /-! ### the lexer (`lex` is total by construction: one structural recursion over the decoded runes): layout is insignificant -/
 
@@ -101,6 +102,63 @@ theorem C10_model_verdict_ok_partial (cfg : Cfg) (fuel : Nat) (fn : String) (inp
     exact ⟨h1, h2⟩
   | panic m => exact absurd hr (C10_parse_no_panic cfg fuel fn input m)
   | timeout => rw [hr] at h; exact h.elim
+
+/-! ### structure preservation: the blocks returned are the blocks written -/
+
+/-- For EVERY written configuration — any number of server blocks; keys on one line or continued after a comma;
+directives with any arguments and arbitrarily nested sub-blocks, laid out in lines as the syntax demands
+(`ParserRT.blockOK`: conditions on the tokens' files and line numbers only, so every layout and every mix of
+inline / snippet / imported origins that yields such tokens is covered) — `Parse` returns exactly those blocks:
+the keys in order (commas stripped) and, per directive name, the directive's tokens in order.
+(Braced form of server blocks; `validDirectives = nil`; tokens free of `{$`/`{%` references.) -/
+theorem C10_parse_roundtrip (cfg : Cfg) (hf : 0 < cfg.envFuel) (hv : cfg.valid = none) (fn : String) (bs : List WBlock)
+    (hall : ∀ b ∈ bs, blockOK b = true) (fuel : Nat) (hfuel : (flatten bs).length + 1 ≤ fuel) :
+    parseTokens cfg fuel fn (flatten bs) = .ok (bs.map expectedBlock) :=
+  parseTokens_rt cfg hf hv fn bs hall fuel hfuel
+
+/-- … and from the text: if the lexer's tokens for `input` are a written configuration, `Parse(input)` returns it.
+With `C10_lex_render` (what the lexer returns for a text in any layout) this is the print–parse round trip. -/
+theorem C10_parse_roundtrip_text (cfg : Cfg) (hf : 0 < cfg.envFuel) (hv : cfg.valid = none) (fn : String) (input : Bytes)
+    (bs : List WBlock) (hlex : lex input = flatten bs) (hall : ∀ b ∈ bs, blockOK b = true) (fuel : Nat)
+    (hfuel : (flatten bs).length + 1 ≤ fuel) :
+    parse cfg fuel fn input = .ok (bs.map expectedBlock) := by
+  unfold parse; rw [hlex]; exact parseTokens_rt cfg hf hv fn bs hall fuel hfuel
+
+theorem sameBlock_refl (a : ServerBlock) : sameBlock a a = true := by
+  unfold sameBlock
+  simp only [beq_self_eq_true, Bool.true_and, List.all_eq_true, List.any_eq_true, Bool.and_eq_true]
+  intro p hp
+  exact ⟨p, hp, by simp, by simp⟩
+
+theorem sameBlocks_refl (l : List ServerBlock) : sameBlocks l l = true := by
+  induction l with
+  | nil => rfl
+  | cons a as ih => simp [sameBlocks, sameBlock_refl, ih]
+
+/-- the model's answer satisfies the round-trip judge (`ParserSpec.roundTrip`, what c10.rt applies to the answers of
+the real parser) for every written configuration -/
+theorem C10_roundtrip_model_verdict_ok (cfg : Cfg) (hf : 0 < cfg.envFuel) (hv : cfg.valid = none) (fn : String)
+    (bs : List WBlock) (hall : ∀ b ∈ bs, blockOK b = true) (fuel : Nat) (hfuel : (flatten bs).length + 1 ≤ fuel) :
+    roundTrip (bs.map expectedBlock) (answerOf (parseTokens cfg fuel fn (flatten bs))) = true := by
+  rw [parseTokens_rt cfg hf hv fn bs hall fuel hfuel]
+  exact sameBlocks_refl _
+
+/-- non-vacuity (a test, by evaluation): the text
+`host, b {⏎ dir a {⏎  sub x⏎ }⏎ log⏎}` is a written configuration — its lexer tokens are `flatten` of a block
+that passes `blockOK` — so the theorem applies to it; the expected answer is spelled out. -/
+example :
+    let t (l : Nat) (s : List UInt8) : Token := ⟨"", l, s⟩
+    let b : WBlock := {
+      keys := [t 1 [0x68, 0x6F, 0x73, 0x74, 0x2C], t 1 [0x62]], open_ := t 1 lbrace,
+      dirs := [⟨t 2 [0x64, 0x69, 0x72], [t 2 [0x61], t 2 lbrace, t 3 [0x73, 0x75, 0x62], t 3 [0x78], t 4 rbrace]⟩,
+               ⟨t 5 [0x6C, 0x6F, 0x67], []⟩],
+      close := t 6 rbrace }
+    lex [0x68, 0x6F, 0x73, 0x74, 0x2C, 0x20, 0x62, 0x20, 0x7B, 0x0A, 0x20, 0x64, 0x69, 0x72, 0x20, 0x61, 0x20, 0x7B, 0x0A,
+         0x20, 0x20, 0x73, 0x75, 0x62, 0x20, 0x78, 0x0A, 0x20, 0x7D, 0x0A, 0x20, 0x6C, 0x6F, 0x67, 0x0A, 0x7D] = flatten [b] ∧
+    blockOK b = true ∧
+    (expectedBlock b).keys = [[0x68, 0x6F, 0x73, 0x74], [0x62]] ∧
+    (expectedBlock b).tokens.map (fun p => (p.1, p.2.length)) = [([0x64, 0x69, 0x72], 6), ([0x6C, 0x6F, 0x67], 1)] := by
+  decide
 
 /-! ### import cycles (finding F8, repaired) -/
 
